@@ -58,6 +58,24 @@ def check(run):
         else:
             c["fam"] = run.rng.choice(["eq", "ne", "gt"])
         plans.append([c])
+    # many distinct values / keys: growth thresholds (8, 16, 32, 64 ...) of the slices and maps the helpers build internally
+    for i in range(40 if run.quick() else 600):
+        op = run.rng.choice(["GroupBy", "CountBy", "Distinct", "DistinctFunc", "Filter", "Except", "ExceptSetM", "ExceptSetS", "Map", "Fold", "FoldReverse"])
+        nk = run.rng.choice([9, 10, 17, 20, 33, 40])
+        n = run.rng.randint(nk, 3 * nk)
+        s = [run.rng.randint(1, nk) for _ in range(n)]
+        c = dict(op=op, s=s, a=run.rng.randint(0, nk), b=42, aux=[run.rng.randint(1, nk) for _ in range(run.rng.randint(0, 12))], fam="")
+        if op in ("GroupBy", "CountBy"):
+            c["fam"] = run.rng.choice(["id", "id", "mod2"])
+        elif op == "DistinctFunc":
+            c["fam"] = run.rng.choice(["eq", "mod2"])
+        elif op == "Map":
+            c["fam"] = run.rng.choice(["x10", "neg"])
+        elif op in ("Fold", "FoldReverse"):
+            c["fam"], c["aux"] = "rec", [7]
+        else:
+            c["fam"] = run.rng.choice(["eq", "ne", "gt"])
+        plans.append([c])
     segs = execute(run, plans)
     if len(segs) != len(plans):
         raise Inconclusive("driver returned %d events for %d plans" % (len(segs), len(plans)))
